@@ -41,7 +41,104 @@ def canon(v):
     return {"other": type(v).__name__}
 
 
+def _parse_printed(text):
+    """Parse the tiny subset of printed values used by the importer-path programs."""
+    pos = [0]
+
+    def ws():
+        while pos[0] < len(text) and text[pos[0]] in " ,\n":
+            pos[0] += 1
+
+    def val():
+        ws()
+        c = text[pos[0]]
+        if c == "[":
+            pos[0] += 1
+            items = ["vec"]
+            while True:
+                ws()
+                if text[pos[0]] == "]":
+                    pos[0] += 1
+                    return items
+                items.append(val())
+        if c == "#" and text.startswith("#'", pos[0]):
+            j = pos[0]
+            while j < len(text) and text[j] not in " ,]\n":
+                j += 1
+            name = text[pos[0] + 2:j].split("/")[-1]
+            pos[0] = j
+            from harness.props.c01_full import GLOBALS
+            return {"var": GLOBALS.index(name)} if name in GLOBALS else {"other": "Var"}
+        if c == "<":
+            depth, j = 0, pos[0]
+            while j < len(text):
+                if text[j] == "<":
+                    depth += 1
+                elif text[j] == ">":
+                    depth -= 1
+                    if depth == 0:
+                        break
+                j += 1
+            pos[0] = j + 1
+            return {"fn": 1}
+        j = pos[0]
+        while j < len(text) and text[j] not in " ,]\n":
+            j += 1
+        tok = text[pos[0]:j]
+        pos[0] = j
+        if tok == "nil":
+            return None
+        if tok == "true":
+            return True
+        if tok == "false":
+            return False
+        try:
+            return int(tok)
+        except ValueError:
+            return {"other": tok[:30]}
+
+    return val()
+
+
+def run_via_importer(case):
+    """The same program through `basilisp run <file>` (importer path) in a child interpreter."""
+    import os, subprocess, sys, tempfile
+    from harness.vlib import paths
+    prog = ('(def t (fn* [x] (println "T" (pr-str x)) x))\n'
+            '(println "R" (pr-str ' + case["lisp"] + '))\n')
+    with tempfile.TemporaryDirectory(prefix="verif-c01-") as td:
+        path = os.path.join(td, "prog.lpy")
+        open(path, "w").write(prog)
+        env = dict(os.environ, PYTHONPATH=paths.REPO_SRC, PYTHONHASHSEED="0",
+                   BASILISP_DO_NOT_CACHE_NAMESPACES="true", PYTHONDONTWRITEBYTECODE="1")
+        p = subprocess.run([sys.executable, "-m", "basilisp.cli", "run", path], capture_output=True, text=True,
+                           env=env, timeout=300, cwd=td)
+    trace, res = [], None
+    for line in p.stdout.splitlines():
+        if line.startswith("T "):
+            trace.append(_parse_printed(line[2:]))
+        elif line.startswith("R "):
+            res = ("val", _parse_printed(line[2:]))
+    if res is not None and p.returncode == 0:
+        return {"val": res[1], "trace": trace}
+    last = [l for l in p.stderr.strip().splitlines() if l.strip()]
+    cls = "Unknown"
+    for l in reversed(last):
+        m = __import__("re").match(r"^(?:[\w.]*\.)?(\w+)(?::|$)", l.strip())
+        if m and (m.group(1).endswith("Error") or m.group(1).endswith("Exception") or m.group(1) in EXC_IDS):
+            cls = m.group(1)
+            break
+    if "CompilerException" in p.stderr and cls not in EXC_IDS:
+        return {"compile_error": p.stderr[-300:]}
+    return {"exc": EXC_IDS.get(cls, 99), "cls": cls, "trace": trace}
+
+
 def run(case):
+    if case.get("via") == "importer":
+        try:
+            return run_via_importer(case)
+        except Exception as e:
+            return {"__error__": type(e).__name__, "msg": str(e)[:200]}
     from basilisp.lang import compiler, reader, runtime, symbol as sym
     from basilisp.lang.compiler.exception import CompilerException
     ns, log = _state["ns"], _state["log"]
